@@ -174,7 +174,7 @@ func (c *svScn) step(st string) {
 		h := c.hist[ci(arg(3))]
 		var id uint32
 		switch arg(2) {
-		case "cur", "nohi", "short", "unissued":
+		case "cur", "cure", "nohi", "short", "unissued":
 			if len(h) > 0 {
 				id = h[len(h)-1]
 			} else {
@@ -202,7 +202,9 @@ func (c *svScn) step(st string) {
 			b = c.last
 		} else {
 			b = binary.BigEndian.AppendUint32(nil, id)
-			b = append(b, []byte(fmt.Sprintf("r%d", c.nrsp))...)
+			if arg(2) != "cure" { // "cure": a response with an empty payload is a response
+				b = append(b, []byte(fmt.Sprintf("r%d", c.nrsp))...)
+			}
 			if arg(2) == "short" {
 				b = b[:1+c.nrsp%3]
 			}
@@ -300,6 +302,8 @@ func svScripted() []svCfg {
 	return []svCfg{
 		// two respondents answer; stale, foreign and malformed responses; expiry at exactly 1 s
 		{Opts: []svCtxOpt{d, d}, SQ: 2, Steps: []string{"conn", "conn", "recv c0", "survey c0", "resp p1 cur c0", "resp p2 cur c0", "recv c0", "recv c0", "resp p1 nohi c0", "resp p2 short c0", "resp p1 unissued c0", "survey c1", "resp p1 cur c1", "resp p2 cur c0", "recv c1", "recv c0", "recv c0", "adv 999.999ms", "adv 1us", "recv c0", "resp p1 cur c0", "recv c0"}},
+		// responses with an empty payload
+		{Opts: []svCtxOpt{d}, SQ: 2, Steps: []string{"conn", "conn", "survey c0", "resp p1 cure c0", "resp p2 cure c0", "recv c0", "recv c0", "recv c0", "adv 2s"}},
 		// a new survey abandons the previous one; its late responses are discarded
 		{Opts: []svCtxOpt{d}, SQ: 2, Steps: []string{"conn", "survey c0", "recv c0", "survey c0", "resp p1 prev c0", "recv c0", "resp p1 cur c0", "recv c0", "adv 2s", "recv c0"}},
 		// slow respondent: pipe queue full drops the survey for that pipe only
@@ -324,7 +328,7 @@ func svRandom(rng *rand.Rand) svCfg {
 	}
 	np := 0
 	steps := 8 + rng.Intn(26)
-	kinds := []string{"cur", "cur", "cur", "cur", "prev", "nohi", "short", "unissued", "dup"}
+	kinds := []string{"cur", "cur", "cur", "cur", "cure", "prev", "nohi", "short", "unissued", "dup"}
 	for i := 0; i < steps; i++ {
 		opts := []string{"survey", "survey", "recv", "recv", "recv", "adv", "adv"}
 		if np < 3 {
